@@ -152,6 +152,26 @@ def shrink(values, still_fails, *, max_attempts=600):
                     if try_(cand):
                         improved = True
             size //= 2
+        # 2b. lower a count and delete the draws of the element it no longer
+        # generates (a lone deletion mis-aligns everything after it, a lone
+        # decrement leaves the dropped element's draws to be read by others)
+        for i in range(len(best)):
+            if attempts >= max_attempts:
+                break
+            if i >= len(best) or best[i] == 0:
+                continue
+            done = False
+            for k in (1, 2, 3, 4, 5, 6, 8, 10, 12):
+                for j in range(i + 1, min(len(best) - k + 1, i + 60)):
+                    if attempts >= max_attempts:
+                        break
+                    cand = best[:i] + [best[i] - 1] + best[i + 1:j] + best[j + k:]
+                    if try_(cand):
+                        improved = True
+                        done = True
+                        break
+                if done or attempts >= max_attempts:
+                    break
         # 3. lower individual values
         for i in range(len(best)):
             if attempts >= max_attempts:
